@@ -98,6 +98,10 @@ type Scenario struct {
 	Driver  []Step              `json:"driver"`
 	Hooks   []HookPlan          `json:"hooks,omitempty"`
 	BudgetS int                 `json:"budgetS,omitempty"` // wall budget of the host (default 30)
+	// SelectBy tells how a launched process finds its script in Actors[role]: "" / "launch" = by the role's launch
+	// index (last script repeats), "stage" = by the stage number the driver last set with flag{stage,n}; launch
+	// errors are then per stage as well. Stages do not drift when a failed initialisation launches only some roles.
+	SelectBy string `json:"selectBy,omitempty"`
 }
 
 // Event of the trace. Seq comes from one atomic counter in the host: return(a).Seq < issue(b).Seq
